@@ -798,6 +798,40 @@ fn rebuild(pf: &ShuffleProof<C>, f: impl FnOnce(&mut Commitments<C>, &mut [X; 4]
 fn shuffle(r: &mut R, prop: &str) {
     let quick = r.h.tier == Tier::Quick;
     let ctx = r.ctx.clone();
+    if prop == "C03" {
+        // sequences over reused buffers, verified by an independent verifier (see p_shuffle::run_c03)
+        let nn = 3;
+        let s = setup(r, nn, b"reuse");
+        let sh = Shuffler::new(&s.pk, &s.gens, &ctx);
+        let mut es: Vec<Ciphertext<C>> = (0..nn).map(|_| s.pk.encrypt(&ctx.rnd())).collect();
+        let mut eps = es.clone();
+        for round in 0..(if quick { 3 } else { 6 }) {
+            for c in es.iter_mut() {
+                *c = s.pk.encrypt(&ctx.rnd());
+            }
+            let (outs, rs, perm) = sh.gen_shuffle(&es);
+            for i in 0..nn {
+                eps[i] = outs[i].clone();
+            }
+            let label = r.label(round);
+            let Ok(pf) = sh.gen_proof(&es, &eps, &rs, &perm, &label) else {
+                r.h.check(false, || "gen_proof failed in a sequence on R255".to_string());
+                continue;
+            };
+            let same = sh.check_proof(&pf, &es, &eps, &label).unwrap_or(false);
+            let (pb, esb, epb) = (pf.strand_serialize().unwrap(), StrandVectorC(es.clone()).strand_serialize().unwrap(), StrandVectorC(eps.clone()).strand_serialize().unwrap());
+            let (pk2, gens2, ctx2, label2) = (PublicKey::from_element(vh::pk_element(&s.pk), &ctx), s.gens.clone(), ctx.clone(), label.clone());
+            let other = std::thread::spawn(move || -> bool {
+                let pf2 = ShuffleProof::<C>::strand_deserialize(&pb).unwrap();
+                let es2 = StrandVectorC::<C>::strand_deserialize(&esb).unwrap().0;
+                let ep2 = StrandVectorC::<C>::strand_deserialize(&epb).unwrap().0;
+                Shuffler::new(&pk2, &gens2, &ctx2).check_proof(&pf2, &es2, &ep2, &label2).unwrap_or(false)
+            })
+            .join()
+            .unwrap_or(false);
+            r.h.check(same && other, || format!("batch {} of a sequence of honest shuffles over reused buffers on R255: accepted over the prover's buffers: {}, by an independent verifier: {}", round + 1, same, other));
+        }
+    }
     let sizes: Vec<usize> = match (prop, quick) {
         ("C02", true) => vec![0, 1, 2, 5],
         ("C02", false) => vec![0, 1, 2, 5, 30, 100],
